@@ -91,12 +91,13 @@ class Log:
         self.hits[rule] = self.hits.get(rule, 0) + n
 
 
-_counter = [0]
+import threading
+_tls = threading.local()   # units are assembled concurrently: the fresh-name counter is per thread
 
 
 def _fresh():
-    _counter[0] += 1
-    return "vx_i%d" % _counter[0]
+    _tls.n = getattr(_tls, "n", 0) + 1
+    return "vx_i%d" % _tls.n
 
 
 def _fix(text, step, log, rule, limit=200):
@@ -731,7 +732,7 @@ def apply_rules(body, extra=()):
     """apply the default rules then unit-specific configured ones; returns (text, hits)"""
     log = Log()
     text = body
-    _counter[0] = 0
+    _tls.n = 0
     off = set(name[1:] for name, kw in extra if name.startswith("-"))     # `//@ rule: -R10` switches a default rule off
     extra = [(name, kw) for name, kw in extra if not name.startswith("-")]
     for name, kw in extra:
